@@ -3,7 +3,7 @@ file type with extension, path (directory), explicit output names, arrays and
 typed maps of files, structs containing files, nested combinations, null and
 missing files, symbolic links, strings that hold paths."""
 from mro import (call, const, pipeline, program, ref, self_, split, stage, struct, INST, FILE, FILES, FMAP, FSTR, FSTRUCT,
-                 FDIR, FMSTRUCT, FASTRUCT, FILES11, FMISSING, FLINK, FLINK2, FSM, FPLINK, FOUTSIDE, FMAPK, FILES2D, FSO)
+                 FDIR, FMSTRUCT, FASTRUCT, FILES11, FMISSING, FLINK, FLINK2, FSM, FPLINK, FOUTSIDE, FMAPK, FILES2D, FSO, FINSIDE)
 
 FT = ("txt", "bam.bai")
 
@@ -41,6 +41,9 @@ def catalogue():
     # pipestance and one outside of it
     FSOT = struct("FSO", "file f, file o")
     P.append(one("po_struct_outside", [FSOT], "FSO s, file g", {"s": FSO, "g": FILE}))
+    # a directory and a file inside it returned side by side, in both orders of declaration
+    P.append(one("po_file_in_dir", [], "path d, txt inner, int n", {"d": FDIR, "inner": FINSIDE, "n": const(1)}))
+    P.append(one("po_file_in_dir_rev", [], "txt inner, path d, int n", {"inner": FINSIDE, "d": FDIR, "n": const(1)}))
     # mapped top-level calls: the invocation is `map call TOP(x = split ...)`; the files of every
     # fork go below outs/<index> or outs/<key>
     for nm, mode, xs in (("po_top_mapped_arr", "array", [1, 2, 3]), ("po_top_mapped_map", "map", {"a": 1, "b c": 2, "10": 3}),
